@@ -123,6 +123,8 @@ package basicnode
 //@   ensures[C12] datamodel.vkind(v.val) == datamodel.Kind_String && indom(old(mka.ma.w.m), datamodel.vstr(v.val)) ==> iserr(err, "datamodel.ErrRepeatedMapKey") && old(mka.ma).state == maState_initial && old(mka.ma).w.t == old(mka.ma.w.t) && wip(old(mka.ma)) && mka.ma == nil
 //@   ensures[C01,C12] datamodel.vkind(v.val) == datamodel.Kind_String && !indom(old(mka.ma.w.m), datamodel.vstr(v.val)) ==> err == nil && old(mka.ma).state == maState_expectValue && mka.ma == nil
 //@         && len(old(mka.ma).w.t) == old(len(mka.ma.w.t)) + 1 && old(mka.ma).w.t[len(old(mka.ma).w.t)-1].k == datamodel.vstr(v.val) && wip(old(mka.ma))
+//@   ensures[C01,C12] datamodel.vkind(v.val) == datamodel.Kind_String && !indom(old(mka.ma.w.m), datamodel.vstr(v.val)) ==> (forall i mathint :: 0 <= i && i < old(len(mka.ma.w.t)) ==> old(mka.ma).w.t[i] == old(mka.ma.w.t[i]))
+//@   ensures[C11] datamodel.vkind(v.val) == datamodel.Kind_String ==> old(mka.ma).w == old(mka.ma.w) && old(mka.ma).w.m == old(mka.ma.w.m) && (root(old(mka.ma).w.t) == old(root(mka.ma.w.t)) || fresh(old(mka.ma).w.t))
 //@   ensures[C12] datamodel.vkind(v.val) != datamodel.Kind_String ==> err != nil && mka.ma == old(mka.ma) && mka.ma.state == maState_midKey && mka.ma.w.t == old(mka.ma.w.t)
 
 //@ func (*plainMap__KeyAssembler).AssignString(v) (err)
